@@ -17,8 +17,27 @@ CallKinds == {"do",          \* Do of one command on the auto-pipelined connecti
               "cachemiss",   \* DoCache that owns the flight
               "cachewait",   \* DoCache of the same key: waits for the other caller's flight (needs "cachemiss")
               "block",       \* BLPOP: a blocking command on a connection of the blocking pool
-              "sub"}         \* Receive(SUBSCRIBE)
-CtxKinds == {"none", "cancel", "deadline", "done"}     \* done: the context is already cancelled when the call is made
+              "sub",         \* Receive(SUBSCRIBE)
+              "dedsub",      \* Receive(SUBSCRIBE) on a dedicated client (only with the fault "dedbreak")
+              \* --- further waiting places of C05 (only with the fault "ctxend")
+              "poolwait",    \* a second BLPOP while the only connection of the blocking pool (BlockingPoolSize 1) is taken
+                             \* by "block": waits in pool.Acquire
+              "backoff",     \* Do of a read-only command that the server answers with LOADING: the call sits in the retry
+                             \* back-off (RetryDelay = BackoffMs, retryer.WaitOrSkipRetry)
+              "backoffm",    \* the same for a DoMulti of two read-only commands
+              "hsblock",     \* BLPOP that has to create its pool connection; the server accepts the connection and never
+                             \* answers HELLO: the call waits in the handshake of _newPipe (Dialer.Timeout = DialMs)
+              "hsredial",    \* Do on the multiplexed connection after it broke: the re-dial's handshake is not answered
+              "hspool"}      \* Do on a DisableAutoPipelining client (connection per call from the pool), handshake not answered
+HandshakeKinds == {"hsblock", "hsredial", "hspool"}
+BackoffKinds == {"backoff", "backoffm"}
+\* done: the context is already cancelled when the call is made;  dlcancel: a context with a deadline far away (DlFarMs)
+\* that is cancelled by hand;  deadline: WithTimeout(DeadlineMs) armed when the call starts
+CtxKinds == {"none", "cancel", "deadline", "dlcancel", "done"}
+DeadlineMs == 400
+DlFarMs    == 60000
+BackoffMs  == 9000      \* longer than PromptMs: a back-off that is slept through is late; shorter than HangAfterMs
+DialMs     == 60000     \* far beyond every deadline of a scenario: only the caller's context can end the handshake in time
 BreakFaults == {"cutall",        \* every connection is cut by the server
                 "cutnow",        \* the connection is cut when the second command of a trigger DoMulti arrives
                 "execcut",       \* ... after executing it, before replying
@@ -26,22 +45,66 @@ BreakFaults == {"cutall",        \* every connection is cut by the server
                 "pingtimeout"}   \* the server goes silent; the keep-alive watchdog has to break the connection
 Faults == BreakFaults \cup {"close",      \* client.Close() while the calls are pending (server silent: 1 s grace, then torn down)
                             "dedclose",   \* DedicatedClient.Close() while its blocking command is pending
+                            "dedbreak",   \* the connection of a dedicated client that carries its commands is cut while its Receive
+                                          \* is pending (RESP2: on the wire's second connection, which stays healthy), a command on
+                                          \* the dedicated client fails, then the dedicated client is released
                             "dialfail",   \* the dial for the blocking command fails (it returns the dial error), then client.Close()
                             "ctxend"}     \* the contexts of the pending calls end (cancel / deadline); server silent
 
 \* ------------------------------------------------------------------------------------------------ scenario space
-Pends == {P \in SUBSET CallKinds : P # {} /\ Cardinality(P) <= 3 /\ ("cachewait" \in P => "cachemiss" \in P)}
-CtxFor(P, f) == IF f = "ctxend" THEN [P -> {"none", "cancel", "deadline"}] ELSE [P -> {"none", "done"}]
+OldKinds == {"do", "multi", "cachemiss", "cachewait", "block", "sub"}
+\* further ingredients of a scenario (C04):
+\*   push     before the fault the server sends an unsolicited unsubscribe notification (what Redis does on slot migration:
+\*            sunsubscribe; or the extra notifications of a wildcard UNSUBSCRIBE): the reader of the pipeline takes the next
+\*            pending call off the queue for it and goes on reading
+\*   traffic  (fault "pingtimeout") while the server is silent new calls with short deadlines keep arriving: the connection
+\*            is never idle between two keep-alive ticks, and still has to be found dead
+\*   resp2    the client speaks RESP2 (AlwaysRESP2): Pub/Sub lives on a second connection of the wire
+Pushes == {"none", "unsubscribe", "sunsubscribe"}
+Pends == {P \in SUBSET CallKinds : /\ P # {} /\ Cardinality(P) <= 3 /\ ("cachewait" \in P => "cachemiss" \in P)
+                                   /\ "poolwait" \in P => ("block" \in P /\ P \subseteq {"block", "poolwait", "do"})
+                                   /\ P \cap BackoffKinds # {} => (P \subseteq BackoffKinds \cup {"do", "multi"} /\ Cardinality(P) <= 2)
+                                   \* one connection in the making at a time: callers that share a dial (mux singleconnect)
+                                   \* wait for the first caller's handshake whatever their own context says -- not scripted
+                                   /\ P \cap HandshakeKinds # {} => Cardinality(P) = 1
+                                   /\ "dedsub" \in P => P = {"dedsub"}}
+CtxFor(P, f) == IF f = "ctxend" THEN [P -> {"none", "cancel", "deadline", "dlcancel"}] ELSE [P -> {"none", "done"}]
+\* Where is the manual cancellation of a context that also has a deadline honoured?  README, "Canceling a Context Before Its
+\* Deadline": only in pipeline mode (the synchronous path arms the connection deadline and cannot watch ctx.Done()); the
+\* waiting places that select on ctx.Done() themselves (cache flight, retry back-off, pool wait) honour it in any mode; the
+\* handshake of a new connection is never in pipeline mode (_newPipe puts the dial timeout on the context as a deadline, so
+\* its set-up DoMulti takes the synchronous path also for a cancel-only context: observed, the call returns after
+\* min(ConnWriteTimeout, Dialer.Timeout)).  Otherwise a cancel-only context makes the connection pipeline.
+CancelHonoured(kind, ctxk, pipe) ==
+   CASE ctxk = "dlcancel" -> kind \in {"cachewait", "poolwait"} \cup BackoffKinds \/ (pipe /\ kind \in {"do", "multi", "cachemiss", "block"})
+     [] ctxk = "cancel"   -> kind \notin HandshakeKinds
+     [] OTHER -> TRUE
 Scenarios ==
-  UNION { { [pend |-> P, ctx |-> cx, fault |-> f, pipe |-> pi, warm |-> wa, small |-> sm] :
+  UNION { { [pend |-> P, ctx |-> cx, fault |-> f, pipe |-> pi, warm |-> wa, small |-> sm, push |-> pu, traffic |-> tr, resp2 |-> r2] :
                cx \in CtxFor(P, f), pi \in BOOLEAN, wa \in BOOLEAN,
-               sm \in IF f = "ctxend" /\ P = {"do"} THEN BOOLEAN ELSE {FALSE} } : P \in Pends, f \in Faults }
+               sm \in IF f = "ctxend" /\ P = {"do"} THEN BOOLEAN ELSE {FALSE},
+               pu \in IF f \in {"cutall", "pingtimeout", "close"} THEN Pushes ELSE {"none"},
+               tr \in IF f = "pingtimeout" THEN BOOLEAN ELSE {FALSE},
+               r2 \in IF f = "dedbreak" THEN BOOLEAN ELSE {FALSE} } : P \in Pends, f \in Faults }
 ValidScenario(s) ==
       \* small: a queue of 2 slots and four "do" calls, so that two of them wait for a slot
       /\ s.small => s.fault = "ctxend" /\ s.pend = {"do"} /\ s.pipe /\ ~s.warm
       /\ s.fault \in {"dedclose", "dialfail"} => s.pend = {"block"} /\ ~s.pipe
-      /\ s.fault = "ctxend" => /\ \E k \in s.pend : s.ctx[k] \in {"cancel", "deadline"}
+      /\ (s.fault = "dedbreak") = (s.pend = {"dedsub"})
+      /\ s.fault = "dedbreak" => ~s.warm /\ s.ctx["dedsub"] = "none"
+      \* the push matters when the reader is between two calls and a pipelined call is waiting for its reply
+      /\ s.push # "none" => s.pend \cap {"do", "multi", "cachemiss"} # {} /\ \A k \in s.pend : s.ctx[k] = "none"
+      \* the keep-alive ping is the only way out for calls without a deadline on a pipelining connection
+      /\ s.traffic => s.pipe /\ s.pend \cap {"do", "multi"} # {} /\ \A k \in s.pend : s.ctx[k] = "none"
+      /\ s.fault = "ctxend" => /\ \E k \in s.pend : s.ctx[k] \in {"cancel", "deadline", "dlcancel"}
                                /\ "sub" \notin s.pend                 \* Receive ends by unsubscribing, not by its context
+                               \* only the combinations in which the end of the context obliges the call to return
+                               /\ \A k \in s.pend : CancelHonoured(k, s.ctx[k], s.pipe)
+                               \* (a call in back-off without a context would only keep the scenario waiting)
+                               /\ \A k \in s.pend \cap BackoffKinds : s.ctx[k] # "none"
+      /\ s.fault # "ctxend" => s.pend \subseteq OldKinds \cup {"dedsub"}
+      /\ s.pend \cap (CallKinds \ OldKinds) # {} => ~s.warm /\ ~s.small
+      /\ "hspool" \in s.pend => ~s.pipe
       /\ s.fault # "ctxend" => /\ \A k \in s.pend : s.ctx[k] \in {"none", "done"}
                                /\ Cardinality({k \in s.pend : s.ctx[k] = "done"}) <= 1
       /\ \A k \in s.pend \cap {"cachewait", "cachemiss"} : s.ctx[k] # "done"
@@ -63,6 +126,13 @@ ErrOk(kind, ctxBegun, closeBegun, broke) ==
      [] kind = "closing" -> closeBegun
      [] kind \in {"neterr", "cacheaborted", "expired"} -> broke \/ closeBegun
      [] OTHER -> TRUE
+\* what a pending call is waiting for (named in the findings)
+WaitingPlace(kind, reached) ==
+   CASE kind = "cachewait" -> "flight"
+     [] kind = "poolwait"  -> "pool"
+     [] kind \in BackoffKinds -> "backoff"
+     [] kind \in HandshakeKinds -> "handshake"
+     [] OTHER -> IF reached THEN "reply" ELSE "slot"
 \* must a call that is still pending have returned by now?
 \*   broke:     a connection it depends on is gone      (C04)
 \*   closeDone: Close() has returned; a blocking command on a pool connection may legitimately wait for its reply
